@@ -126,7 +126,7 @@ pub fn run(out_dir: &str, tier: &str, seed: u64, only: Option<String>, oracle_n:
         let tv_states: Vec<RState> = (0..k_tv).map(|_| configs::sample_state(c, &mut rng)).collect();
         let set = trace::trace_set(c.model.as_ref(), &sa, &sb, &tv_states);
         // Coq file: one block per distinct program shape
-        let mut v = emit::header(&["ProgSem", "Homog"]);
+        let mut v = emit::header(&["ProgSem", "Homog", "AD", "Euler"]);
         v.push_str("From FeosProps Require Import C02.\n");
         v.push_str(&format!("Definition ncomp : nat := {}.\n", c.ncomp));
         let mut progs_json = Vec::new();
@@ -154,6 +154,14 @@ Definition P_comparisons_scale_invariant := C02_comparisons_scale_invariant P_pr
 Check P_extensive.
 Check P_observed_signs_scale_invariant.
 Check P_comparisons_scale_invariant.
+Definition P_n := (P_nvars + List.length P_consts)%nat.
+Lemma P_scoped : wscoped P_prog P_n = true.
+Proof. vm_compute. reflexivity. Qed.
+Definition P_euler := C02_euler_relation P_prog ncomp (zero_flags P_consts) P_nouts.
+Check P_euler.
+(* numeric reading of Euler's relation at the validation states: directional derivative along (0,V,N,0) vs the value itself *)
+Definition P_edir (st : list (Z * Z)) : list (Z * Z) := (0, 0)%Z :: (firstn (P_nvars - 1) (tl st) ++ repeat (0, 0)%Z (List.length P_consts))%list.
+Eval vm_compute in ("EULER", "P", let d := tan_outs P_prog P_n [0%nat] in map (fun st => (nth 0 (evalI 53%Z P_prog st) I.nai, nth 0 (evalI 53%Z d (st ++ P_edir st)%list) I.nai)) P_inputs).
 "#;
             v.push_str(&body.replace("P_", &format!("{p}_")).replace("\"P\"", &format!("\"{p}\"")));
             // scaled differential trace: a scale-dependent value that escaped through `.re()` into f64
